@@ -296,4 +296,116 @@ Proof.
   - intros i Hi. apply list_uint_at_spec; [exact OK|exact Hw|]. lia.
 Qed.
 
+Lemma P_all : forall n fuel, (fuel <= n)%nat -> P fuel.
+Proof.
+  induction n as [|n IH]; intros fuel Hle.
+  - assert (fuel = O) by lia. subst fuel.
+    intros rl sid s wa depth Hs Hin Hd Hrl HC.
+    pose proof (readPtr_of_spec rl sid s wa depth Hs Hin ltac:(lia)) as R.
+    cbn [dec_ptr] in *.
+    destruct (spec_resolve false m sid wa) as [t|] eqn:SR.
+    2:{ rewrite R. cbn [walk fst snd]. f_equal. lia. }
+    destruct (spec_resolve_facts _ _ _ _ _ SR) as [W I]. pose proof (tgt_cost_nonneg t W) as C.
+    destruct t as [|i|sg a dw pc|sg a e n0 dw pc]; cbn [fst snd tgt_cost] in *;
+      (destruct (R ltac:(lia)) as [cs E]; rewrite E; cbn [walk ptr_of_target p_valid nullPtr negb]; f_equal; lia).
+  - destruct fuel as [|f].
+    { apply IH. lia. }
+    assert (PF : P f) by (apply IH; lia).
+    assert (PF' : forall f', f = S f' -> P f') by (intros f' ->; apply IH; lia).
+    intros rl sid s wa depth Hs Hin Hd Hrl HC.
+    pose proof (readPtr_of_spec rl sid s wa depth Hs Hin ltac:(lia)) as R.
+    assert (Hud : uint_dec depth = depth - 1) by (unfold uint_dec, u64; lia).
+    cbn [dec_ptr] in *.
+    destruct (spec_resolve false m sid wa) as [t|] eqn:SR.
+    2:{ rewrite R. cbn [walk fst snd]. f_equal. lia. }
+    destruct (spec_resolve_facts _ _ _ _ _ SR) as [W I]. pose proof (tgt_cost_nonneg t W) as C.
+    pose proof (Hrep _ _ _ SR) as LR.
+    destruct t as [|i|sg a dw pc|sg a e n0 dw pc].
+    + cbn [fst snd] in *. destruct (R ltac:(cbn [tgt_cost]; lia)) as [cs E]. rewrite E.
+      cbn [walk ptr_of_target p_valid nullPtr negb tgt_cost]. f_equal; lia.
+    + cbn [fst snd] in *. destruct (R ltac:(cbn [tgt_cost]; lia)) as [cs E]. rewrite E.
+      cbn [walk ptr_of_target p_valid p_kind p_len negb tgt_cost]. f_equal; lia.
+    + pose proof (dec_struct_nonneg (dec_ptr false f dcap pcap m) m dcap pcap (sv_of_struct sg a dw pc)
+                    (fun s0 w0 => dec_ptr_nonneg false f dcap pcap m s0 w0)) as SN.
+      destruct (dec_struct (dec_ptr false f dcap pcap m) m dcap pcap (sv_of_struct sg a dw pc)) as [tr cc] eqn:ED.
+      cbn [fst snd] in *.
+      destruct (R ltac:(lia)) as [cs E]. rewrite E. rewrite Hud.
+      change (ptr_of_target (depth - 1) cs (TgtStruct sg a dw pc))
+        with (ptr_of_sview (depth - 1) false (sv_of_struct sg a dw pc)).
+      rewrite (walk_struct f PF); [rewrite ED; cbn [fst snd]; f_equal; lia| |lia|lia|rewrite ED; cbn [snd]; lia].
+      apply sview_ok_of_struct; assumption.
+    + set (D := dec_list (dec_ptr false f dcap pcap m)
+                  (fun v => match f with
+                            | O => (TFuel, 0)
+                            | S f' => dec_struct (dec_ptr false f' dcap pcap m) m dcap pcap v
+                            end) m pcap (TgtList sg a e n0 dw pc)) in *.
+      assert (DN : tgt_cost (TgtList sg a e n0 dw pc) <= snd D).
+      { subst D. unfold dec_list.
+        destruct (e =? 1); [cbn [snd]; lia|].
+        destruct (e =? 7).
+        { match goal with |- context [sum_costs ?G 0 ?k] =>
+            pose proof (sum_costs_nonneg G k 0) as SN; destruct (sum_costs G 0 k) as [es cc] end.
+          cbn [snd] in *. 
+          assert (0 <= cc); [|lia]. apply SN. intros i0.
+          destruct f; [cbn; lia|]. apply dec_struct_nonneg. intros; apply dec_ptr_nonneg. }
+        destruct (e =? 6).
+        { match goal with |- context [sum_costs ?G 0 ?k] =>
+            pose proof (sum_costs_nonneg G k 0) as SN; destruct (sum_costs G 0 k) as [es cc] end.
+          cbn [snd] in *. assert (0 <= cc); [|lia]. apply SN. intros i0. apply dec_ptr_nonneg. }
+        destruct (e =? 0); cbn [snd]; lia. }
+      destruct (R ltac:(lia)) as [cs E]. rewrite E. rewrite Hud.
+      rewrite (walk_list f PF PF'); [fold D; f_equal; lia| |lia|lia|fold D; lia].
+      apply list_ok_of_target; assumption.
+Qed.
+
+(* walk_eq_spec (full statement): for every message, every caps and every fuel: when the
+   segments fit the address space, no landing pad is the deviating one, element counts are
+   representable, the depth limit exceeds the fuel and the budget covers the specification's
+   traversal cost, walking from any in-bounds pointer word gives exactly the specification's
+   tree and consumes exactly the specification's cost. *)
+Theorem walk_eq_spec : forall fuel rl sid s wa depth,
+  seg_at m sid = Some s -> in_words s wa 1 = true ->
+  Z.of_nat fuel < depth < 18446744073709551616 -> 0 <= rl ->
+  spec_cost false fuel dcap pcap m sid wa <= rl ->
+  (let '(r, rl1) := readPtr true m rl sid s (8 * wa) depth in
+   walk c fx m dcap pcap fuel rl1 r)
+  = (spec_decode false fuel dcap pcap m sid wa, rl - spec_cost false fuel dcap pcap m sid wa).
+Proof. intros fuel. exact (P_all fuel fuel (le_n _)). Qed.
+
+
 End Walk.
+
+(* non-vacuity of the side conditions of walk_eq_spec: the one-word message holding a null
+   root satisfies them (the conclusion is exercised on a three-segment message in
+   SpecExamples.ex_walk_tree / ex_spec_tree) *)
+Definition zero_msg : list (list Z) := [[0; 0; 0; 0; 0; 0; 0; 0]].
+
+Lemma zero_seg_word : forall wa, word_at [0; 0; 0; 0; 0; 0; 0; 0] wa = 0.
+Proof.
+  intros wa. unfold word_at.
+  assert (B : forall i, byte_at [0; 0; 0; 0; 0; 0; 0; 0] i = 0).
+  { intros i. unfold byte_at. destruct (i <? 0); [reflexivity|].
+    destruct (Z.to_nat i) as [|[|[|[|[|[|[|[|k]]]]]]]]; try reflexivity. destruct k; reflexivity. }
+  cbn [le_num]. rewrite !B. reflexivity.
+Qed.
+
+Lemma zero_msg_seg : forall sid s, seg_at zero_msg sid = Some s -> s = [0; 0; 0; 0; 0; 0; 0; 0].
+Proof.
+  intros sid s H. apply seg_at_nth in H. destruct H as [-> R]. cbn in R.
+  assert (sid = 0) by lia. subst sid. reflexivity.
+Qed.
+
+Example walk_eq_spec_hyps_satisfiable :
+  bytes_ok zero_msg /\ segs_small zero_msg /\
+  (forall sid wa, dfar_zero_pad zero_msg sid wa = false) /\
+  (forall sid wa t, spec_resolve false zero_msg sid wa = Some t -> list_repr t).
+Proof.
+  split; [repeat constructor; lia|]. split; [repeat constructor; unfold seg_small, blen, maxSegmentSize; cbn; lia|].
+  split.
+  - intros sid wa. unfold dfar_zero_pad. destruct (seg_at zero_msg sid) as [s|] eqn:Hs; [|reflexivity].
+    apply zero_msg_seg in Hs. subst s. rewrite zero_seg_word. reflexivity.
+  - intros sid wa t H. unfold spec_resolve in H. destruct (seg_at zero_msg sid) as [s|] eqn:Hs; [|discriminate].
+    apply zero_msg_seg in Hs. subst s. destruct (negb _); [discriminate|].
+    rewrite zero_seg_word in H. change (ptr_kind 0 =? 2) with false in H. cbv iota in H.
+    unfold spec_near in H. change (0 =? 0) with true in H. cbv iota in H. inversion H. exact Logic.I.
+Qed.
